@@ -24,7 +24,10 @@ LocalHosts == {"lhName", "lhUpper", "lo4", "lo4b", "lo6", "unspec4", "unspec6", 
                "lhEmpty",
                \* names the hosts file maps to loopback addresses, wherever they fall in the alphabet: before "localhost"
                \* (a Debian-style "127.0.1.1 buildhost buildhost.example.net"), and mapped to ::1
-               "lhAliasEarly", "lhAliasFqdn", "lhAlias6"}
+               "lhAliasEarly", "lhAliasFqdn", "lhAlias6",
+               \* a loopback target named in the Host field of an origin-form request with a port the URL parser does not take
+               \* for one and the dialler does ("127.0.0.1:+80", "localhost:http"): the host is the local system all the same
+               "lo4PlusPort", "lhServicePort"}
 HostClasses == {"origin",      \* ordinary name, matches nothing
                 "denied",      \* matches a deny-domains include rule
                 "deniedUpper", \* the same domain spelt in upper case by the client: the same domain, denied as well
@@ -152,6 +155,7 @@ AccessReqs == [kind : AccessKinds, host : HostClasses \ {"direct", "directUpper"
 AccessOK(c, r) ==
   /\ (r.host = "lhEmpty" => c.lh = "deny")       \* (with localhost allowed the outcome depends on what listens on the proxy's own port 80)
   /\ (r.host \in {"lo6zone", "lhDot", "lhWide", "lo4Ideo", "deniedWide", "lhEmpty"} => r.kind \in {"GET", "GET10", "POST"})   \* written in a URL
+  /\ (r.host \in {"lo4PlusPort", "lhServicePort"} => r.kind = "GETorigin" /\ c.lh = "deny")   \* only a Host field can say it
   /\ (r.cred # "none" => c.auth)                 \* credentials only matter with auth on
   /\ (r.host \in {"denied", "deniedUpper", "deniedWide", "deniedDot", "deniedUpperRule", "denyExcl", "denyExclCaps", "deniedCaps"} => c.deny)
   /\ (r.pos \in AfterRefused => (c.auth \/ c.deny \/ c.lh = "deny" \/ c.tf = "out"))
